@@ -15,6 +15,9 @@ CHECKS = {
  "C01": ("exhaustive enumeration of configuration deviations (iterative deviation bounding) x argv prefix tree over a config-derived token alphabet, on the real parser under a process-isolating supervisor",
          "Every dev(d) configuration (base + all sets of <=d of ~70 single-feature deviations) that clap's own debug-assert gate accepts x every argv in A(cfg)^<=L, each parsed plain and with ignore_errors: quick (d<=1,L<=3)+(d=2,L<=2), thorough (d<=1,L<=4)+(d=2,L<=3)+(d=3,L<=2). Oracle: returns (unwinds caught; aborts/stalls isolated by a supervisor with per-case journal), errors render, ignore_errors yields Ok unless an explicit help/version request. Safety property explored directly on the implementation; no model involved.",
          "Trusted: the deviation catalogue and alphabet (mc/model/src/dev.rs) as the definition of the explored space; debug-assertion profile. Defects needing >d simultaneous deviations, longer argv or features outside the catalogue are not seen.", "DESIGN.md §4 C01"),
+ "C02": ("exhaustive enumeration of conventional-class configurations x argv prefix tree, lock-step comparison with a documented-grammar reader (reference model) on every execution",
+         "Every conventional configuration (<=N of 13 argument templates x <=F of 7 features, plus 8 hyphen-value configurations) x every argv in A(cfg)^<=L (quick: (2,1,3),(3,0,2),(1,1,4); thorough: (3,2,3),(2,1,4)). On every successful parse the real ArgMatches are compared with the reading of an independent documented-grammar reader: attribution per argument and occurrence, delimiter splitting, nothing invented/dropped, distinct indices reproducing argv order, subcommand dispatch. Exhaustive within these bounds.",
+         "Trusted: the documented-grammar reader R1 (mc/model/src/r1.rs, shares no structure with parser.rs); lines it calls unspecified (counted in the evidence) are not compared. Flag subcommands, terminators and trailing_var_arg are outside this class (C01/C05/C09).", "DESIGN.md §3.5, §4 C02"),
 }
 PENDING_REASON = "check not built yet in this round (design in DESIGN.md §4); will be claimed when its checker exists"
 props = [json.loads(l) for l in open('/verif/properties.jsonl')]
